@@ -113,6 +113,16 @@ class BatchWorld:
         self.fe_500 = []
         self.fe_app = None
         self.driver_notifications = []
+        self.driver_500 = []
+        self.driver_app = None
+        self.cloud = None
+        self.worker_fault_rates = {}
+        self.billing_period = 60.0
+        self.max_job_ticks = 3000
+        self.forced_outcomes = {}
+        self.periods = {'cancel_fast_failing': 10, 'bump': 60, 'refresh_globals': 5, 'compact': 60, 'cleanup': 60}
+        self.service_users = [User(100, 'batch', projects=[])]
+        self.service_users[0].token = 'tok-batch-service'
 
     # ---- database -------------------------------------------------------------------------------
     def _db_latency(self, what):
@@ -217,7 +227,7 @@ class BatchWorld:
 
     async def start_auth(self):
         svc = Service('auth', 'auth')
-        by_token = {u.token: u for u in self.users}
+        by_token = {u.token: u for u in self.users + self.service_users}
 
         async def handler(method, path_qs, headers, body):
             auth = headers.get('Authorization', '')
@@ -306,12 +316,19 @@ class BatchWorld:
         self.net = SimNet(self.ctx)
         self.net.max_delay_ticks = self.net_delay_ticks
         self.fs = MemFS(lambda: self.ctx.stream('fs.latency').ticks(2))
+        self.file_store = self.mods.FileStore(self.fs, 'gs://sim-batch', 'siminst')
         entropy.install(self.s_entropy)
         self.build_db()
         await self.start_auth()
         if not self.with_driver:
             await self.start_stub_driver()
+        else:
+            from worlds.batch.driverworld import start_driver
+            await start_driver(self)
         await self.start_front_end()
+
+    def job_outcome(self, batch_id, job_id):
+        return self.forced_outcomes.get((batch_id, job_id))
 
     def stop(self):
         entropy.uninstall()
